@@ -3,7 +3,9 @@ behind Path.check replaced by a fixed answer (`unknown` or `sat` for every query
 oracle fixed, the exploration (which branches are followed, visit counters, loop bound, --depth cut, end states) is a
 deterministic function of the program and the options, so the two sides must agree exactly on
   * the multiset of end states (outcome kind, pc at the end),
-  * the number of bounded-loop flags, whether the --depth warning was raised.
+  * the number of bounded-loop flags, whether the --depth warning was raised,
+  * for a few concrete inputs per program: the end states whose path the input satisfies, each with its return / revert
+    data evaluated under the input (the implementation's terms by vlib.zeval, the model's by the Lean driver).
 
 What the generator deliberately avoids, because there the model is an approximation or z3's simplifier is stronger than
 the driver's (Driver/Sevm.lean: constant folding + double-negation elimination):
@@ -22,6 +24,7 @@ import logging
 from . import asm
 from . import evmdiff as D
 
+MEMOFF = [0, 0, 32, 32, 64, 1, 31, 33, 96]     # mostly word-aligned; a few overlapping / unaligned accesses
 CONST = [0, 1, 2, 3, 5, 7, 42, 255, 256, (1 << 255), (1 << 256) - 1]
 BIN = ["ADD", "MUL", "SUB", "DIV", "SDIV", "MOD", "SMOD", "LT", "GT", "SLT", "SGT", "EQ", "AND", "OR", "XOR", "BYTE",
        "SHL", "SHR", "SAR", "EXP", "SIGNEXTEND"]
@@ -60,8 +63,11 @@ class CoreGen:
         r = self.rng
         if d == 0 or r.random() < 0.35:
             k = r.random()
-            if k < 0.5:
+            if k < 0.45:
                 return self.arg()
+            if k < 0.55:
+                self.count("mem:MLOAD")
+                return [("push", r.choice(MEMOFF)), "MLOAD"]
             if k < 0.85:
                 return [("push", r.choice(CONST))]
             return [r.choice(["CALLER", "CALLVALUE", "ORIGIN", "ADDRESS", "CALLDATASIZE", "PC"])]
@@ -93,8 +99,16 @@ class CoreGen:
 
     def stmt(self, d):
         r = self.rng
-        k = r.choice(["pop", "pop", "if", "if", "loop", "dupswap"] if d > 0 else ["pop", "dupswap"])
+        k = r.choice(["pop", "mstore", "mstore", "mstore8", "if", "if", "loop", "dupswap"] if d > 0
+                     else ["pop", "mstore", "dupswap"])
         self.count("stmt:" + k)
+        if k == "mstore":
+            self.count("mem:MSTORE")
+            off = r.choice(MEMOFF) if r.random() < 0.97 else r.choice([1 << 20, (1 << 20) + 1, 1 << 30])
+            return self.expr(2) + [("push", off), "MSTORE"]
+        if k == "mstore8":
+            self.count("mem:MSTORE8")
+            return self.expr(1) + [("push", r.choice(MEMOFF)), "MSTORE8"]
         if k == "pop":
             return self.expr(2) + ["POP"]
         if k == "dupswap":
@@ -139,7 +153,10 @@ class CoreGen:
         if k < 0.55:
             return ["INVALID"]
         if k < 0.7:
-            return [("push", 0), ("push", r.choice([0, 5, 1 << 30])), r.choice(["RETURN", "REVERT"])]
+            size = r.choice([0, 1, 32, 33, 64, 64, 100]) if r.random() < 0.93 else r.choice([1 << 20, (1 << 20) + 1, 1 << 30])
+            self.count("mem:RETURN-data" if size else "mem:RETURN-empty")
+            return [("push", size), ("push", r.choice([0, 0, 5, 32, 1 << 30] if not size else [0, 0, 5, 32])),
+                    r.choice(["RETURN", "REVERT"])]
         if k < 0.8:
             return [("push", r.choice([0, 1, 2, 0xFFFF])), "JUMP"]
         if k < 0.9:
@@ -157,7 +174,12 @@ class CoreGen:
 
 
 def impl_summary(code: bytes, nargs: int, loop: int, depth: int, oracle: str):
-    """the real SEVM with Path.check answering `oracle` to every query; 8 s watchdog"""
+    """summary string of `impl_run`"""
+    return impl_run(code, nargs, loop, depth, oracle)[0]
+
+
+def impl_run(code: bytes, nargs: int, loop: int, depth: int, oracle: str):
+    """the real SEVM with Path.check answering `oracle` to every query; 8 s watchdog. Returns (summary, SymRun | None)"""
     import signal
     import sys
 
@@ -186,16 +208,16 @@ def impl_summary(code: bytes, nargs: int, loop: int, depth: int, oracle: str):
         scn = D.Scenario({D.MAIN: code}, nargs=nargs)
         sr = D.symbolic_run(scn, loop=loop, depth=depth)
     except TimeoutError:
-        return "timeout"
+        return "timeout", None
     finally:
         signal.setitimer(signal.ITIMER_REAL, 0)
         signal.signal(signal.SIGALRM, old)
         S.Path.check, S.warn = orig_check, orig_warn
         sys.unraisablehook = orig_hook
     if sr.escaped and "TimeoutError" in sr.escaped:
-        return "timeout"
+        return "timeout", None
     if sr.escaped:
-        return "escaped:" + sr.escaped
+        return "escaped:" + sr.escaped, None
     ends = []
     for p in sr.paths:
         k = p.kind
@@ -204,7 +226,38 @@ def impl_summary(code: bytes, nargs: int, loop: int, depth: int, oracle: str):
             k = "stuck:notConcrete" if name == "NotConcreteError" else "stuck:unsupported" if "HalmosException" in name else "stuck:" + name
         ends.append(f"{k}@{p.ex.pc}")
     depthcut = int(any("--depth" in w for w in warned) or any("--depth" in w for w in sr.warnings))
-    return f"ends={','.join(sorted(ends)) if ends else '-'} bounded={len(sr.bounded_loops)} depthcut={depthcut}"
+    return f"ends={','.join(sorted(ends)) if ends else '-'} bounded={len(sr.bounded_loops)} depthcut={depthcut}", sr
+
+
+def _kind(p):
+    k = p.kind
+    if k.startswith("stuck:"):
+        name = k.split(":", 1)[1]
+        k = "stuck:notConcrete" if name == "NotConcreteError" else "stuck:unsupported" if "HalmosException" in name else "stuck:" + name
+    return k
+
+
+def impl_eval(sr, inputs):
+    """the end states of the real run whose path conditions `inputs` satisfies, with their data evaluated (vlib.zeval)"""
+    out = []
+    for p in sr.paths:
+        pe = D.PathEval(inputs)
+        if not pe.satisfies(p.conds):
+            continue
+        data = pe.bytes_of(p.data) if p.data is not None else b""
+        out.append(f"{_kind(p)}@{p.ex.pc}:{(data or b'').hex()}")
+    return "sat=" + (",".join(sorted(out)) if out else "-")
+
+
+def _inputs(rng, g, nargs):
+    """a concrete input: argument values near the constants the program compares them with"""
+    args = []
+    for i in range(nargs):
+        near = [c + d for (c, j, _op) in g.conds if j == i for d in (-1, 0, 0, 1)]
+        pool = near + [0, 1, 5, 7, (1 << 255) + 3, (1 << 256) - 1, rng.getrandbits(256), rng.getrandbits(16)]
+        args.append(rng.choice(pool) % (1 << 256))
+    return D.Inputs(args=args, caller=rng.getrandbits(160), origin=rng.getrandbits(160), value=rng.choice([0, 1, rng.getrandbits(64)]),
+                    balances={})
 
 
 def _canon(summary: str) -> str:
@@ -216,6 +269,12 @@ def _canon(summary: str) -> str:
     if ends != "-":
         ends = ",".join(sorted(ends.split(",")))
     return f"ends={ends} {rest}"
+
+
+def _canon_eval(summary: str) -> str:
+    if not summary.startswith("sat=") or summary == "sat=-":
+        return summary
+    return "sat=" + ",".join(sorted(summary[4:].split(",")))
 
 
 def compare_core(ctx, n):
@@ -234,13 +293,13 @@ def compare_core(ctx, n):
             ctx.count("core:" + k, v)
         loop = rng.choice([1, 2, 2, 3])
         oracle = rng.choice(["unknown", "unknown", "sat"])
-        progs.append((code, nargs, loop, oracle))
+        progs.append((code, nargs, loop, oracle, g))
         q.append(f"steps {code.hex()} {nargs} {loop} 20000 {oracle}")
     drv = ctx.lean("Sevm")
     # --depth is placed at the exact number of worklist iterations of the run (and one below / above), where an
     # off-by-one in the cut or in the number of steps a branch takes changes the set of end states
     cases, lines = [], []
-    for (code, nargs, loop, oracle), rep in zip(progs, drv.ask(q)):
+    for (code, nargs, loop, oracle, g), rep in zip(progs, drv.ask(q)):
         total = int(rep.split("=", 1)[1]) if rep.startswith("steps=") else 0
         pick = rng.random()
         if total <= 1 or pick < 0.4:
@@ -249,12 +308,18 @@ def compare_core(ctx, n):
             depth = max(1, total + rng.choice([-1, 0, 0, 1]))
         else:
             depth = rng.randrange(1, total + 1)
-        cases.append((code, nargs, loop, depth, oracle))
+        ins = [_inputs(rng, g, nargs) for _ in range(3)]
+        cases.append((code, nargs, loop, depth, oracle, ins))
         lines.append(f"run {code.hex()} {nargs} {loop} {depth} 20000 {oracle}")
-    replies = drv.ask(lines)
+        for x in ins:
+            lines.append(f"eval {code.hex()} {nargs} {loop} {depth} 20000 {oracle} {','.join(f'{a:x}' for a in x.args)} "
+                         f"{x.caller:x} {x.origin:x} {x.value:x}")
+    replies = iter(drv.ask(lines))
     stale = []
-    for (code, nargs, loop, depth, oracle), rep in zip(cases, replies):
-        impl = impl_summary(code, nargs, loop, depth, oracle)
+    for (code, nargs, loop, depth, oracle, ins) in cases:
+        rep = next(replies)
+        evals = [next(replies) for _ in ins]
+        impl, sr = impl_run(code, nargs, loop, depth, oracle)
         model = _canon(rep.replace("!", "").rsplit(" fuelout=", 1)[0])   # `!` = the model's tag of the jumpi-invalid-dest site
         impl = _canon(impl)
         ctx.case(("core", code, loop, depth, oracle))
@@ -276,5 +341,23 @@ def compare_core(ctx, n):
         if impl != model:
             stale.append({"code": code.hex(), "nargs": nargs, "loop": loop, "depth": depth, "oracle": oracle,
                           "impl": impl[:300], "model": model[:300]})
+            continue
+        # same exploration: now the data of the paths each concrete input takes
+        for x, mrep in zip(ins, evals):
+            try:
+                irep = _canon_eval(impl_eval(sr, x))
+            except D.Unknown as e:      # a symbol the harness cannot evaluate: not a core program any more
+                ctx.count("core:eval-unknown-symbol")
+                continue
+            mrep = _canon_eval(mrep.replace("!", ""))
+            ctx.count("core:inputs-evaluated")
+            if irep != "sat=-":
+                ctx.count("core:inputs-with-data" if any(e.split(":", 1)[1] for e in irep[4:].split(",")) else "core:inputs-without-data")
+            if irep != mrep:
+                stale.append({"code": code.hex(), "nargs": nargs, "loop": loop, "depth": depth, "oracle": oracle,
+                              "input": {"args": [hex(a) for a in x.args], "caller": hex(x.caller), "origin": hex(x.origin),
+                                        "value": hex(x.value)},
+                              "impl": irep[:300], "model": mrep[:300]})
+                break
     ctx.extra["core_model_vs_impl_programs"] = len(cases)
     return stale
